@@ -762,4 +762,429 @@ def massImageOf (B : Bin) (m : Model) (masses : List Rat) (w : Pew.Imzml.Width) 
   | some (shape, img) => Pew.Imzml.tabulate shape img
   | none => []
 
+/-! ## the conversions, concretely
+
+`Bin` above is opaque; here it is realised the way the code realises it: `int(text)`, `float(text)` and
+`Spectrum.get_binary_data` (C05's byte-level model `Pew.Imzml.readValues` on the bytes of the `.ibd`). -/
+
+/-- `int(s)` for a text of ASCII digits (what exporters write; leading zeros allowed).  `none` for
+everything else — Python accepts more (sign, blanks, underscores, other Unicode digits); such texts are
+outside what the exact image comparison covers -/
+def pyNat (s : String) : Option Nat :=
+  if s.isEmpty || !s.toList.all Char.isDigit then none
+  else some (s.toList.foldl (fun n c => 10 * n + (c.toNat - 48)) 0)
+
+def digitsNat (l : List Char) : Nat := l.foldl (fun n c => 10 * n + (c.toNat - 48)) 0
+
+/-- `10^e` as a rational, `e` any integer -/
+def pow10 (e : Int) : Rat := if 0 ≤ e then ((10 ^ e.toNat : Nat) : Rat) else 1 / ((10 ^ (-e).toNat : Nat) : Rat)
+
+/-- sign and rest of a decimal text -/
+def splitSign : List Char → Bool × List Char
+  | '-' :: r => (true, r)
+  | '+' :: r => (false, r)
+  | r => (false, r)
+
+/-- the exact value of a decimal text `[+-] digits [. digits] [e|E [+-] digits]` (at least one digit in the
+mantissa, at least one in an exponent that is present), white space around it ignored.  `none`: not of that
+shape (`inf`, `nan`, underscores … are left to Python) -/
+def decimalValue (s : String) : Option Rat :=
+  -- `float()` strips leading and trailing white space
+  let isWs := fun (c : Char) => c == ' ' || c == '\t' || c == '\n' || c == '\r' || c == '\x0b' || c == '\x0c'
+  let cs := ((s.toList.dropWhile isWs).reverse.dropWhile isWs).reverse
+  let (neg, r) := splitSign cs
+  let ip := r.takeWhile Char.isDigit
+  let r1 := r.dropWhile Char.isDigit
+  let (fp, r2) : List Char × List Char :=
+    match r1 with
+    | '.' :: t => (t.takeWhile Char.isDigit, t.dropWhile Char.isDigit)
+    | _ => ([], r1)
+  if ip.isEmpty && fp.isEmpty then none else
+  let mant : Rat := ((digitsNat (ip ++ fp) : Nat) : Rat) * pow10 (-(fp.length : Int))
+  let ex : Option Int :=
+    match r2 with
+    | [] => some 0
+    | c :: t =>
+      if c == 'e' || c == 'E' then
+        let (eneg, ds) := splitSign t
+        if ds.isEmpty || !ds.all Char.isDigit then none
+        else some (if eneg then -(digitsNat ds : Int) else (digitsNat ds : Int))
+      else none
+  match ex with
+  | none => none
+  | some e => some ((if neg then -1 else 1) * mant * pow10 e)
+
+/-- `⌊log₂ (n/d)⌋` for positive `n`, `d` -/
+def floorLog2 (n d : Nat) : Int :=
+  let e0 : Int := (Nat.log2 n : Int) - (Nat.log2 d : Int)
+  -- 2^e0 ≤ n/d·2 and n/d < 2^(e0+1): e0 or e0 - 1
+  let ge : Bool := if 0 ≤ e0 then d * 2 ^ e0.toNat ≤ n else d ≤ n * 2 ^ (-e0).toNat
+  if ge then e0 else e0 - 1
+
+/-- round half to even of a non-negative rational -/
+def roundHalfEvenNat (q : Rat) : Nat :=
+  let f := q.floor.toNat
+  let r := q - (f : Rat)
+  if r < 1 / 2 then f else if 1 / 2 < r then f + 1 else if f % 2 = 0 then f else f + 1
+
+/-- the binary64 nearest to `x` (ties to even), for `x = 0` or `2^-1022 ≤ |x| < 2^1024 − 2^970`
+(normal range, no overflow); `none` outside -/
+def nearestF64 (x : Rat) : Option Rat :=
+  if x = 0 then some 0 else
+  let a := if x < 0 then -x else x
+  let e := floorLog2 a.num.natAbs a.den
+  if e < -1022 then none else
+  -- significand scaled to [2^52, 2^53)
+  let k : Int := e - 52
+  let q : Rat := if 0 ≤ k then a / ((2 ^ k.toNat : Nat) : Rat) else a * ((2 ^ (-k).toNat : Nat) : Rat)
+  let m := roundHalfEvenNat q
+  let r : Rat := if 0 ≤ k then (m : Rat) * ((2 ^ k.toNat : Nat) : Rat) else (m : Rat) / ((2 ^ (-k).toNat : Nat) : Rat)
+  if (2 : Rat) ^ 1024 ≤ r then none else some (if x < 0 then -r else r)
+
+/-- `float(s)`: CPython converts a decimal text with correct rounding (David Gay's algorithm) -/
+def pyFloat (s : String) : Option Rat := (decimalValue s).bind nearestF64
+
+/-- the element type an accession of `CV_BINARYDATA` declares -/
+def dtypeOf (acc : String) : Option Pew.Imzml.DType :=
+  if acc = "IMS:1100000" then some .u8 else if acc = "IMS:1100001" then some .u16
+  else if acc = "MS:1000519" then some .u32 else if acc = "MS:1000522" then some .u64
+  else if acc = "MS:1000521" then some .f32 else if acc = "MS:1000523" then some .f64 else none
+
+/-- `offsets[id]`, `lengths[id]`: the dictionary keeps the last array with that reference -/
+def arrayOf (s : SpecInfo) (id : String) : Option (String × String) :=
+  (s.arrays.reverse.find? (fun a => a.1 == id)).map (fun a => a.2)
+
+/-- `spec.get_binary_data(g.id, g.dtype, fp)` on the bytes of the external binary; `none` when an offset or
+length is not a digit text, the group declares no known type, NumPy rejects the buffer or an element is
+not finite -/
+def readOf (ibd : List UInt8) (g : PGroup) (s : SpecInfo) : Option (List Rat) :=
+  match arrayOf s g.id, dtypeOf g.dtype with
+  | some (o, l), some dt =>
+    match pyNat o, pyNat l with
+    | some off, some len => Pew.Imzml.readValues .little ibd off len dt
+    | _, _ => none
+  | _, _ => none
+
+/-- the conversions for one external binary (unreadable texts and arrays count as 0 / empty: the cases
+where that matters are excluded by `convertible`) -/
+def binOfBytes (ibd : List UInt8) : Bin :=
+  { int := fun s => (pyNat s).getD 0, float := fun s => (pyFloat s).getD 0,
+    read := fun g s => (readOf ibd g s).getD [] }
+
+/-- every text and array the extraction touches converts (so `binOfBytes` is what Python computes) -/
+def convertible (ibd : List UInt8) (m : Model) : Bool :=
+  (match m.scan.size with
+    | some (x, y) => (pyNat x).isSome && (pyNat y).isSome
+    | none => true) &&
+  m.spectra.all (fun s =>
+    (pyNat s.x).isSome && (pyNat s.y).isSome &&
+    (match s.tic with | some t => (pyFloat t).isSome | none => true) &&
+    (readOf ibd m.mz s).isSome && (readOf ibd m.inten s).isSome)
+
+/-! ## from text lines to abstract lines
+
+The state machine above works on abstract lines; here is how the code's string tests classify a text
+line (`str.startswith`, `str.find`, the regular expression at the top of `fast_parse_imzml`).  `tokenise`
+is defined for lines on which the classification does not depend on the loop that reads them (a line
+that begins like one of the eight tags does not also match the regular expression, and the garbage the
+`id="` scan yields on a `…List` or `…Ref` line is not a group name); every line of a rendered document is
+such a line, which the driver checks for every generated file. -/
+
+/-- `str.strip()` (ASCII white space; Python also strips other Unicode spaces) -/
+def isSpaceChar (c : Char) : Bool :=
+  c == ' ' || c == '\t' || c == '\n' || c == '\r' || c == '\x0b' || c == '\x0c' ||
+  c == '\x1c' || c == '\x1d' || c == '\x1e' || c == '\x1f'
+
+def pyStrip (l : List Char) : List Char := ((l.dropWhile isSpaceChar).reverse.dropWhile isSpaceChar).reverse
+
+/-- index of the first occurrence of `pat` in `s`, counting from `i` for the head of `s` -/
+def findIdxFrom (pat : List Char) : List Char → Nat → Option Nat
+  | [], i => if pat.isEmpty then some i else none
+  | c :: r, i => if pat.isPrefixOf (c :: r) then some i else findIdxFrom pat r (i + 1)
+
+/-- `s.find(pat, start)`; `-1` when there is none -/
+def pyFind (s pat : List Char) (start : Nat) : Int :=
+  match findIdxFrom pat (s.drop start) start with
+  | some i => (i : Int)
+  | none => -1
+
+/-- `s[a:b]` for `a ≥ 0` and any `b` (a negative `b` counts from the end) -/
+def pySlice (s : List Char) (a : Nat) (b : Int) : List Char :=
+  let e : Nat := if b < 0 then (s.length : Int) + b |>.toNat else min b.toNat s.length
+  (s.take e).drop a
+
+/-- `k = line.find(attr + '="', len(tag)) + len(attr) + 2; line[k : line.find('"', k)]` -/
+def attrScan (line : List Char) (tagLen : Nat) (attr : String) : String :=
+  let pat := attr.toList ++ ['=', '"']
+  let k : Nat := (pyFind line pat tagLen + (pat.length : Int)).toNat
+  String.ofList (pySlice line k (pyFind line ['"'] k))
+
+/-- `\d` restricted to ASCII (Python's also accepts other Unicode decimal digits) -/
+def reDigit (c : Char) : Bool := c.isDigit
+
+/-- after `accession="`: `(I?MS:\d+)`; the accession and what follows it -/
+def matchAcc (r : List Char) : Option (List Char × List Char) :=
+  let (pre, r1) : List Char × List Char :=
+    match r with
+    | 'I' :: t => (['I'], t)
+    | _ => ([], r)
+  match r1 with
+  | 'M' :: 'S' :: ':' :: t =>
+    let ds := t.takeWhile reDigit
+    if ds.isEmpty then none else some (pre ++ ['M', 'S', ':'] ++ ds, t.dropWhile reDigit)
+  | _ =>
+    -- `I?` may also match nothing in front of a text that starts with `I`: then `MS:` must follow at once, which it does not
+    none
+
+/-- `(?:.*value="([^"]+)")?` on the rest of the line: greedy `.*`, so the LAST place where `value="`
+is followed by at least one character other than a quote and then a quote -/
+def matchValue (cls : List Char → Bool) : List Char → Option (List Char)
+  | [] => none
+  | c :: r =>
+    match matchValue cls r with
+    | some v => some v
+    | none =>
+      if ("value=\"".toList).isPrefixOf (c :: r) then
+        let body := (c :: r).drop 7
+        let v := body.takeWhile cls'
+        if !v.isEmpty && (body.dropWhile cls').head? == some '"' then some v else none
+      else none
+where cls' (c : Char) : Bool := c != '"' && cls [c]
+
+/-- `re_accession.search(line)`: the leftmost `accession="` that is followed by an accession, and the
+value group.  `cls` is the character class of the value (`[^"]` now, `[\w.]` before 91b0006), given on
+one-character strings -/
+def reSearch (cls : List Char → Bool) : List Char → Option (String × Option String)
+  | [] => none
+  | c :: r =>
+    if ("accession=\"".toList).isPrefixOf (c :: r) then
+      match matchAcc ((c :: r).drop 11) with
+      | some (acc, rest) => some (String.ofList acc, (matchValue cls rest).map String.ofList)
+      | none => reSearch cls r
+    else reSearch cls r
+
+def clsAnyC (_ : List Char) : Bool := true
+def clsWordC (l : List Char) : Bool := l.all (fun c => c.isAlphanum || c == '_' || c == '.')
+
+/-- the tags the loops test for, longest first where one is a prefix of another -/
+def tagTable : List (String × Tag) :=
+  [("referenceableParamGroupList", .groupList), ("referenceableParamGroup", .group),
+   ("scanSettingsList", .settingsList), ("scanSettings", .settings),
+   ("spectrumList", .spectrumList), ("spectrum", .spectrum),
+   ("binaryDataArrayList", .arrayList), ("binaryDataArray", .array)]
+
+def startsWith (line : List Char) (p : String) : Bool := p.toList.isPrefixOf line
+
+/-- a text line as the abstract line the state machine reads; `none` when the classification would depend
+on which loop reads the line -/
+def tokenise (cls : List Char → Bool) (text : String) : Option Line :=
+  let line := pyStrip text.toList
+  let re := reSearch cls line
+  let isRef := startsWith line "<referenceableParamGroupRef"
+  let opn := tagTable.find? (fun (n, _) => startsWith line ("<" ++ n))
+  let clo := tagTable.find? (fun (n, _) => startsWith line ("</" ++ n))
+  if isRef then
+    -- inside an array: the regular expression is tried first, then the reference; in the group list the
+    -- line passes the `<referenceableParamGroup` test and its `id="` scan must not give a group name
+    let gid := attrScan line 24 "id"
+    if re.isSome || gid == "mzArray" || gid == "intensities" then none
+    else some (.ref (attrScan line 27 "ref"))
+  else
+    match opn, clo with
+    | some (_, t), _ =>
+      if re.isSome then none else
+      match t with
+      | .group => some (.opn .group (attrScan line 24 "id"))
+      | .groupList =>
+        let gid := attrScan line 24 "id"
+        if gid == "mzArray" || gid == "intensities" then none else some (.opn .groupList "")
+      | t => some (.opn t "")
+    | none, some (_, t) => if re.isSome then none else some (.cls t)
+    | none, none =>
+      match re with
+      | some (a, v) => some (.cv a v)
+      | none => some .misc
+
+/-- lines no loop reacts to are all alike: an opening or closing tag the parser does not know, and
+anything else without an accession -/
+def Line.norm : Line → Line
+  | .opn .other _ => .misc
+  | .cls .other => .misc
+  | l => l
+
+/-- the text of a file, line by line, as the abstract lines of the state machine -/
+def tokeniseAll (cls : List Char → Bool) (texts : List String) : Option (List Line) := texts.mapM (tokenise cls)
+
+/-! ## what the callback hands back
+
+`fast_parse_imzml` tests `if not callback(fp.tell())`: the truth value of whatever object the callback
+returns.  The property speaks of "a callback returning False"; a Python callback can return any object. -/
+
+/-- the object `callback(fp.tell())` evaluates to, as far as the parser can tell objects apart:
+`bool`, `numpy.bool_` (what a comparison with a NumPy scalar gives: `pos < np.int64(limit)`), `int`,
+`None`, and `other`: any other object (string, list, float, NumPy integer, plain object) with its truth
+value -/
+inductive PyVal
+  | bool (b : Bool)
+  | npBool (b : Bool)
+  | int (n : Int)
+  | none
+  | other (truth : Bool)
+  deriving DecidableEq, Repr
+
+/-- `bool(v)`, the mechanism: `if not callback(…): raise UserWarning` -/
+def PyVal.truthy : PyVal → Bool
+  | .bool b => b
+  | .npBool b => b
+  | .int n => n != 0
+  | .none => false
+  | .other t => t
+
+/-- specification, "the callback returned False": `False`, `numpy.False_` and the integer `0` (all
+three are equal to `False`; `bool` is a subclass of `int`) -/
+def PyVal.isFalse : PyVal → Bool
+  | .bool b => !b
+  | .npBool b => !b
+  | .int n => n == 0
+  | _ => false
+
+/-- specification, "the callback returned True": `True`, `numpy.True_` and the integer `1` -/
+def PyVal.isTrue : PyVal → Bool
+  | .bool b => b
+  | .npBool b => b
+  | .int n => n == 1
+  | _ => false
+
+/-- the callback of the state machine for a Python callback `f` -/
+def cbOf (f : Nat → PyVal) : Nat → Bool := fun p => (f p).truthy
+
+/-- what the property allows for a callback that hands back `vals[j]` at invocation `j`.
+`a = some j`: invocation `j` aborted the import (it was the last one); `none`: the import ran to the
+end.  An invocation that returned False must abort, one that returned True must not; for any other
+object (`None`, `2`, a string …) the text demands neither -/
+def outcomeOk (vals : List PyVal) : Option Nat → Bool
+  | .none => vals.all (fun v => !v.isFalse)
+  | .some j => (vals.take j).all (fun v => !v.isFalse) &&
+      (match vals[j]? with
+       | some v => !v.isTrue
+       | .none => false)
+
+/-- the mechanism's choice: the first invocation whose result is falsy -/
+def firstFalsy (vals : List PyVal) : Option Nat := vals.findIdx? (fun v => !v.truthy)
+
+/-- every outcome the property allows, in the order "never", 0, 1, … -/
+def okOutcomes (vals : List PyVal) : List (Option Nat) :=
+  (Option.none :: (List.range vals.length).map Option.some).filter (outcomeOk vals)
+
+/-! ## histories: several imports in one process
+
+The same document is imported two or three times in one process, through either parser, with different
+external binaries, and the caller edits the objects it got back in between.  The parsers keep nothing
+between calls: every import reads the document again and builds a new object. -/
+
+/-- an object an import returned: the parsed model and `external_binary` (an index into the binaries
+of the history) -/
+structure Obj where
+  model : Model
+  bin : Nat
+  deriving DecidableEq, Repr
+
+def setAt {α} (l : List α) (i : Nat) (f : α → α) : List α :=
+  match l[i]? with
+  | some a => l.set i (f a)
+  | none => l
+
+/-- what a caller can do to an object it holds: every attribute is assignable and the dictionaries are
+mutable -/
+inductive Edit
+  | setSize (s : Option (String × String))                   -- `imz.scan_settings.image_size = …`
+  | setPixel (p : String × String)                           -- `imz.scan_settings.pixel_size = …`
+  | dropSpectrum (i : Nat)                                   -- `del imz.spectra[key]`
+  | clearSpectra                                             -- `imz.spectra.clear()`
+  | addSpectrum (s : SpecInfo)                               -- `imz.spectra[pos] = Spectrum(…)`
+  | setTic (i : Nat) (t : Option String)                     -- `spectrum.tic = …`
+  | setPos (i : Nat) (x y : String)                          -- `spectrum.pos = …`
+  | setArrays (i : Nat) (a : List (String × String × String)) -- `spectrum.offsets[…] = …`, `spectrum.lengths…`
+  | setMz (g : PGroup)                                       -- `imz.mz_params.id / .dtype / .external = …`
+  | setInten (g : PGroup)
+  | setBin (b : Nat)                                         -- `imz.external_binary = …`
+  deriving DecidableEq, Repr
+
+def Edit.apply (o : Obj) : Edit → Obj
+  | .setSize s => { o with model := { o.model with scan := { o.model.scan with size := s } } }
+  | .setPixel p => { o with model := { o.model with scan := { o.model.scan with pixel := p } } }
+  | .dropSpectrum i => { o with model := { o.model with spectra := o.model.spectra.eraseIdx i } }
+  | .clearSpectra => { o with model := { o.model with spectra := [] } }
+  | .addSpectrum s => { o with model := { o.model with spectra := o.model.spectra ++ [s] } }
+  | .setTic i t => { o with model := { o.model with spectra := setAt o.model.spectra i (fun s => { s with tic := t }) } }
+  | .setPos i x y => { o with model := { o.model with spectra := setAt o.model.spectra i (fun s => { s with x := x, y := y }) } }
+  | .setArrays i a => { o with model := { o.model with spectra := setAt o.model.spectra i (fun s => { s with arrays := a }) } }
+  | .setMz g => { o with model := { o.model with mz := g } }
+  | .setInten g => { o with model := { o.model with inten := g } }
+  | .setBin b => { o with bin := b }
+
+/-- which parser an import uses; the fast parser with `callback=None` or with a callback -/
+inductive Parser
+  | fast (cb : Option (Nat → Bool))
+  | xml
+
+/-- one call of `ImzML.from_file(path, external_binary, use_fast_parse)` / `fast_parse_imzml(path,
+external_binary, callback)` on the document -/
+structure Import where
+  parser : Parser
+  bin : Nat
+
+inductive Op
+  | imp (i : Import)
+  | edit (obj : Nat) (e : Edit)     -- the caller edits the `obj`-th object it holds
+
+/-- what an import hands to its caller -/
+inductive Result
+  | ok (o : Obj)
+  | fastErr (e : Err)
+  | xmlErr
+  deriving DecidableEq, Repr
+
+/-- one import on its own: the parser reads the document and wraps the model with the binary it was given -/
+def importOnce (d : Doc) (ls : List (Line × Nat)) (i : Import) : Result :=
+  match i.parser with
+  | .fast cb =>
+    match fastParse (cb.getD (fun _ => true)) ls with
+    | .ok m => .ok { model := m, bin := i.bin }
+    | .error e => .fastErr e
+  | .xml =>
+    match xmlView (xmlDoc d) with
+    | some m => .ok { model := m, bin := i.bin }
+    | none => .xmlErr
+
+/-- the process: the objects the caller holds (as edited so far) and what each import returned -/
+structure Session where
+  heap : List Obj
+  results : List Result
+  deriving Repr
+
+def Session.init : Session := { heap := [], results := [] }
+
+/-- an import reads the file, never the objects handed out earlier; a successful one adds a new object -/
+def Session.step (d : Doc) (ls : List (Line × Nat)) (s : Session) : Op → Session
+  | .imp i =>
+    match importOnce d ls i with
+    | .ok o => { heap := s.heap ++ [o], results := s.results ++ [.ok o] }
+    | r => { s with results := s.results ++ [r] }
+  | .edit k e => { s with heap := setAt s.heap k (fun o => e.apply o) }
+
+def runOps (d : Doc) (ls : List (Line × Nat)) (ops : List Op) : Session :=
+  ops.foldl (Session.step d ls) Session.init
+
+/-- the imports of a history, in order -/
+def importsOf : List Op → List Import
+  | [] => []
+  | .imp i :: r => i :: importsOf r
+  | .edit _ _ :: r => importsOf r
+
+/-- the images of a returned object: the binary it reads is the one given to ITS import -/
+def objImages (Bs : Nat → Bin) (masses : List Rat) (w : Pew.Imzml.Width) (o : Obj) :
+    (Nat × Nat) × List (List (Option Rat)) × List (List (Option (List Rat))) :=
+  (imageSizeOf (Bs o.bin) o.model, ticImageOf (Bs o.bin) o.model, massImageOf (Bs o.bin) o.model masses w)
+
 end Pew.FastParse
